@@ -118,3 +118,75 @@ Example C14_arnoldi_nonvacuous :
       Nat.eqb (length Vs) 2 && negb wn && negb (hermitianb QcF 3 ex_A3)
   | None => false end = true.
 Proof. split; [exact ex3_arnoldi|vm_compute; reflexivity]. Qed.
+
+(* ---------------------------------------------------------------------------------------------------------------
+   Early termination on an EXACTLY vanishing residual closes the factorisation: A V = V T for all k returned columns
+   (Proofs/KrylovExhaust.v). [lanczos_last be Vs] = lanczos_body (k-1) be Vs = (alpha_{k-1}, w_{k-1}, dnorm w_{k-1}) is
+   the residual of the last step recomputed from the returned state (on the early-return path: exactly what the loop
+   computed when it broke off); [tcol F k t j] is column j of the k x k matrix t, [tri F al be] = tridiag(alpha, beta),
+   [hfun F H i j] = H[i][j]. "Exact breakdown" = the warning was issued (wn = true) and numpy.linalg.norm answered 0 on
+   the last residual; by the norm contract on the calls issued this forces w_{k-1} = 0. Nothing is claimed when the
+   norm is small but non-zero (floating point breakdown): then A V = V T holds only up to the residual. *)
+From PT Require Import Proofs.KrylovRitz Proofs.KrylovPoly Proofs.KrylovExhaust Proofs.KrylovExamples15 Proofs.KrylovExamplesExhaust.
+
+(* zero last residual (whether or not a breakdown was signalled) ==> A v_j = sum_l T_lj v_l for every j < k *)
+Theorem C14_lanczos_zero_resid_AV_VT :
+  forall (F : ofield) (n : nat) (Afunc : list (Cx F) -> list (Cx F)) (dnorm : list (Cx F) -> F),
+  maps_len F n Afunc -> self_adjoint F n Afunc ->
+  forall (m : nat) (al be : list F) (Vs : list (list (Cx F))) (wn : bool),
+  lanczos_post F n Afunc m (al, be, Vs, wn) ->
+  lanczos_last_resid F Afunc dnorm be Vs = vzero n ->
+  forall j, j < length Vs -> Afunc (vat F Vs j) = lincomb n (tcol F (length Vs) (tri F al be) j) Vs.
+Proof. exact lanczos_zero_resid_AV_VT. Qed.
+Print Assumptions C14_lanczos_zero_resid_AV_VT.
+
+(* breakdown signalled with norm answer 0: k < m, orthonormal columns, first column v/||v||, and A V = V T *)
+Theorem C14_lanczos_exact_breakdown_AV_VT :
+  forall (F : ofield) (n : nat) (Afunc : list (Cx F) -> list (Cx F)) (dnorm : list (Cx F) -> F) (small : F -> bool),
+  maps_len F n Afunc -> self_adjoint F n Afunc -> small_sound F small ->
+  forall (v : list (Cx F)) (m : nat) (al be : list F) (Vs : list (list (Cx F))),
+  length v = n -> v <> vzero n -> 1 <= m ->
+  Forall (norm_ok F) (lanczos_calls F Afunc dnorm small v m) ->
+  lanczos F Afunc dnorm small v m = Some (al, be, Vs, true) ->
+  lanczos_last_norm F Afunc dnorm be Vs = f0 F ->
+  1 <= length Vs /\ length Vs < m /\ vat F Vs 0 = vdivr v (dnorm v) /\ orthonormal F n Vs /\
+  forall j, j < length Vs -> Afunc (vat F Vs j) = lincomb n (tcol F (length Vs) (tri F al be) j) Vs.
+Proof. exact lanczos_exact_breakdown_AV_VT. Qed.
+Print Assumptions C14_lanczos_exact_breakdown_AV_VT.
+
+Theorem C14_arnoldi_zero_resid_AV_VH :
+  forall (F : ofield) (n : nat) (Afunc : list (Cx F) -> list (Cx F)) (dnorm : list (Cx F) -> F),
+  maps_len F n Afunc ->
+  forall (m : nat) (cols Vs : list (list (Cx F))) (wn : bool),
+  arnoldi_post F n Afunc m (cols, Vs, wn) ->
+  arnoldi_last_resid F Afunc dnorm Vs = vzero n ->
+  forall j, j < length Vs -> Afunc (vat F Vs j) = lincomb n (tcol F (length Vs) (hentry cols) j) Vs.
+Proof. exact arnoldi_zero_resid_AV_VH. Qed.
+Print Assumptions C14_arnoldi_zero_resid_AV_VH.
+
+Theorem C14_arnoldi_exact_breakdown_AV_VH :
+  forall (F : ofield) (n : nat) (Afunc : list (Cx F) -> list (Cx F)) (dnorm : list (Cx F) -> F) (small : F -> bool),
+  maps_len F n Afunc -> small_sound F small ->
+  forall (v : list (Cx F)) (m : nat) (H Vs : list (list (Cx F))),
+  length v = n -> v <> vzero n -> 1 <= m ->
+  Forall (norm_ok F) (arnoldi_calls F Afunc dnorm small v m) ->
+  arnoldi F Afunc dnorm small v m = Some (H, Vs, true) ->
+  arnoldi_last_norm F Afunc dnorm Vs = f0 F ->
+  1 <= length Vs /\ length Vs < m /\ vat F Vs 0 = vdivr v (dnorm v) /\ orthonormal F n Vs /\
+  forall j, j < length Vs -> Afunc (vat F Vs j) = lincomb n (tcol F (length Vs) (hfun F H) j) Vs.
+Proof. exact arnoldi_exact_breakdown_AV_VH. Qed.
+Print Assumptions C14_arnoldi_exact_breakdown_AV_VH.
+
+(* Non-vacuity: ex_A4 (Hermitian, rational), start vector (1,-2i,2) in a two-dimensional invariant subspace, numiter = 3:
+   the residual at step 1 vanishes exactly, the exact-square-root norm oracle answers 0, the breakdown is signalled,
+   two vectors are returned and A V = V T holds for both columns (Proofs/KrylovExamplesExhaust.v) *)
+Example C14_exact_breakdown_nonvacuous :
+  (exists al be Vs,
+     lanczos QcF (matvec ex_A4) dnorm_ex ex_small ex_v 3 = Some (al, be, Vs, true) /\ length Vs = 2 /\
+     forall j, j < length Vs -> matvec ex_A4 (vat QcF Vs j) = lincomb 3 (tcol QcF (length Vs) (tri QcF al be) j) Vs) /\
+  match lanczos QcF (matvec ex_A4) dnorm_ex ex_small ex_v 3 with
+  | Some (al, be, Vs, wn) =>
+      fl_approx QcF (qq 0 1) al [qq 16 1; qq 9 1] && fl_approx QcF (qq 0 1) be [qq 12 1] && Nat.eqb (length Vs) 2 && wn &&
+      feqb QcF (lanczos_last_norm QcF (matvec ex_A4) dnorm_ex be Vs) (f0 QcF)
+  | None => false end = true.
+Proof. split; [exact ex5_AV_VT|vm_compute; reflexivity]. Qed.
